@@ -10,7 +10,8 @@ API summary
 FEATURES                         tuple of all generator feature names (individually switchable)
 programs(features=FEATURES)      Hypothesis strategy -> program dict
     {'params': ['I','J',..], 'ret': 'I'|'J', 'locals': [types of ALL variables, parameters first],
-     'body': [stmt..], 'choices': int, 'lower': [enabled lowering features: 2addr lit8 lit16 rsub loop_bottom]}
+     'body': [stmt..], 'choices': int, 'lower': [enabled lowering features: 2addr lit8 lit16 rsub loop_bottom],
+     'acc': index of the accumulator local (read by every return, updated in every branch) or None}
   stmt:  ['set', var, expr] | ['if', cond, then, else] | ['loop', kind, counter, bound, step, extra_cond|None, body]
          (kind 'while'|'dowhile'; counter is a dedicated int local set to 0 before the loop, `counter += step`
          is the last statement of the body, the condition is `counter < bound [&& extra]`)
@@ -22,7 +23,9 @@ programs(features=FEATURES)      Hypothesis strategy -> program dict
 compile_program(prog) -> Compiled(insns: bytes, regs, ins, outs=0, listing: [str], used: set of feature names)
 evaluate(prog, args) -> ('ret', value) | ('exc', 'java.lang.ArithmeticException')   Java semantics of the AST
 to_java(prog, name) -> Java source of the method (used only by the generator's self test against a real JVM)
-features_used(prog) -> set of AST-level features;  ops_used(prog) -> set of operator names
+features_used(prog) -> set of AST-level features (incl. the shape features dead_branch, dowhile_kill, const_loop_cond,
+                       fallthrough_any, narrow_switch, loop_return, break_in_if, switch_inner_return, deep, see programs());
+ops_used(prog) -> set of operator names;  nesting(prog) -> '<inner>_in_<parent>' tags;  build_dex(progs) -> DEX bytes
 shrink_candidates(prog) -> list of strictly smaller programs (one-step reductions) for batch shrinking
 descriptor(prog) -> '(IJ)I' ;  arg_tuples(prog, rng, n) -> boundary + random argument tuples
 """
@@ -781,7 +784,7 @@ class _Lowering:
                 self.release(a)
                 dst = dst or self.tmp(ty)
                 self.used.add('rsub')
-                if -128 <= c <= 127 and self.chance(0.85):
+                if -128 <= c <= 127 and self.chance(0.65):
                     self.used.add('rsub-int/lit8')
                     self.emit('rsub-int/lit8', AA=('reg', dst), BB=('reg', a), CC=c)
                 else:
@@ -1236,8 +1239,8 @@ def programs(features=FEATURES, max_stmts=6):
             form = draw(st.integers(0, 5))
             if form == 0 and ty == I:
                 b = ['c', I, draw(st.one_of(small, lit8, lit16))]
-            elif form == 1 and ty == I and op == 'sub':
-                a, b = ['c', I, draw(st.one_of(small, lit8, lit16))], (a if a[0] != 'c' else b)
+            elif form in (1, 2) and ty == I and op == 'sub':
+                a, b = ['c', I, draw(st.one_of(small, lit8, lit16, lit16))], (a if a[0] != 'c' else b)
             if a[0] == 'c' and b[0] == 'c':
                 # compilers fold constant expressions; keep one side variable when possible
                 if vars_[a[1]]:
